@@ -1409,7 +1409,9 @@ class _CompressSimplify(_Simp):
 
 
 class _time_limit:
-    """raise TimeoutError in the (main thread of the) worker if the block runs longer than `seconds` of wall time"""
+    """raise TimeoutError in the (main thread of the) worker if the block consumes more than `seconds` of CPU time of
+    this process (ITIMER_PROF: user + system time; wall time would misjudge a slow step on a loaded machine -- e.g. a numba
+    compilation taking minutes of wall time -- as non-termination)"""
 
     def __init__(self, seconds):
         self.seconds = seconds
@@ -1420,14 +1422,14 @@ class _time_limit:
     def __enter__(self):
         import signal
 
-        self.old = signal.signal(signal.SIGALRM, self._raise)
-        signal.setitimer(signal.ITIMER_REAL, self.seconds)
+        self.old = signal.signal(signal.SIGPROF, self._raise)
+        signal.setitimer(signal.ITIMER_PROF, self.seconds)
 
     def __exit__(self, *exc):
         import signal
 
-        signal.setitimer(signal.ITIMER_REAL, 0)
-        signal.signal(signal.SIGALRM, self.old)
+        signal.setitimer(signal.ITIMER_PROF, 0)
+        signal.signal(signal.SIGPROF, self.old)
         return False
 
 
@@ -1440,12 +1442,12 @@ def run_step(qtn, before, name, p, dt):
     if rw.group == "X":
         g = {} if g is None else g
         tn._vf_gauges = g
-    limit = 8 if p.get("sp_loop") else 90
+    limit = 15 if p.get("sp_loop") else 150  # seconds of CPU time
     try:
         with _time_limit(limit):
             res = rw.apply(qtn, tn, before, p)
     except TimeoutError:
-        return None, f"{name} did not return within {limit} s (a step of this size takes milliseconds): non-termination"
+        return None, f"{name} did not return within {limit} s of CPU time (a step of this size takes milliseconds): non-termination"
     if isinstance(res, str):
         return None, res
     if not isinstance(res, qtn.TensorNetwork):
